@@ -215,7 +215,16 @@ def make_model_class():
                 self.reached.set()
                 self.gate.wait(LIVENESS_S)
             if seq in self.faults or (len(self.trace) - 1) in self.fault_idx:
-                raise make_fault(self.prog.get("fault_kind", "msg"), seq)
+                kind = self.prog.get("fault_kind", "msg")
+                if kind == "bad-request":
+                    # the handler fails because the library refuses an illegal scheduling request of it (a time of
+                    # the wrong type) and the handler does not catch that error
+                    from pydsol.core.units import Duration
+                    now = sim.simulator_time
+                    bad = float(now) + 1.0 if isinstance(now, Duration) else "soon"
+                    sim.schedule_event(SimEvent(bad, self, "h", 5, seq=-1, node=0))
+                    kind = "msg"          # (accepted?! the handler fails all the same)
+                raise make_fault(kind, seq)
 
         def _sched(self, how, arg, node, prio):
             sim = self.simulator
